@@ -11,7 +11,8 @@ def write(pid, tier, seed, wall_s, obligations, violations, known, assumptions, 
     inconcl = [o for o in obligations if o["verdict"] in ("inconclusive", "vacuous")]
     states = sum(int(o.get("paths", 0) or 0) for o in obligations)
     queries = sum(int(o.get("queries", 0) or 0) for o in obligations)
-    nontrivial = sum(1 for o in passed if o.get("nonvacuous", True))
+    # distinct non-trivial cases = reachability witnesses (outcome classes / kani::cover!) actually hit by passed obligations
+    nontrivial = sum(int((o.get("covers") or [0, 0])[0] or 0) for o in passed)
     samples = [o.get("sample") for o in obligations if o.get("sample")][:10]
     if not samples:
         samples = [dict(obligation=o["name"], verdict=o["verdict"]) for o in obligations[:5]]
@@ -22,10 +23,11 @@ def write(pid, tier, seed, wall_s, obligations, violations, known, assumptions, 
         samples=samples,
         evaluations=max(queries, 1),
         distinct_nontrivial=nontrivial,
-        rule=("one obligation = one solver-decided harness over symbolic inputs (Kani/CBMC proof harness "
-              "or mirsym MIR->SMT path set); non-trivial = verdict 'pass' AND its reachability witness "
-              "(kani::cover!/path witness) was satisfied; states = symbolic paths / VCCs after "
-              "simplification, transitions = solver queries/properties decided"),
+        rule=("one obligation = one solver-decided harness over symbolic inputs (mirsym MIR->SMT path set or Kani/CBMC "
+              "proof harness); distinct_nontrivial = number of distinct reachability witnesses hit by the passed obligations "
+              "(named outcome classes of paths such as ok / err / malformed / cyclic, or kani::cover! points); states = "
+              "symbolic paths explored (M) / VCCs after simplification (K); transitions = solver queries (M) / properties "
+              "decided (K)"),
         exhaustive=False,
         obligations=len(obligations),
         discharged=len(passed),
